@@ -96,7 +96,7 @@ CHECKS = {
     technique="TLC model checking (MC_Disasm: injectivity of the line format, unambiguous vocabulary) + TLC trace validation (DisasmTrace.tla: token structure per Disasm.tla + read-back equality) of real disassemblies",
     design="5 C07"),
  "C20": dict(
-    text="DisCli.tla models the tool as read -> load -> print with exit 0 as the only terminal state (TLC checks it); rspirv-dis is built from the current tree and run on a corpus (empty file, every byte prefix of a valid module and of a module with 64-bit constants and a 64-bit OpSwitch, OpConstant of undeclared / bool type, OpSpecConstantOp embedding sampled opcode numbers, every sequence of <= 4 structural instructions, OpExtInst with boundary numbers of known and unknown sets, loadable random modules, single-fault mutants, random bytes); DisCliTrace checks exit status 0, no signal, no panic message, stdout = the library's own result on the same bytes + newline, error messages are one line.",
+    text="DisCli.tla models the tool as read -> load -> print with exit 0 as the only terminal state (TLC checks it); rspirv-dis is built from the current tree and run on a corpus (empty file, every byte prefix of a valid module and of a module with 64-bit constants and a 64-bit OpSwitch, OpConstant of undeclared / bool type, OpSpecConstantOp embedding sampled opcode numbers, every sequence of <= 4 structural instructions, OpExtInst with boundary numbers of known and unknown sets, loadable random modules, single-fault mutants, random bytes); every run (and the library's own result, computed in a child process) has a 20 s deadline; DisCliTrace checks termination, exit status 0, no signal, no panic message, stdout = the library's own result on the same bytes + newline, error messages are one line.",
     note="The expected text is computed in-process by the harness built from the same tree, so this check is independent of C07.",
     technique="TLC model checking (DisCli.tla) + TLC trace validation (DisCliTrace.tla) of real process runs",
     design="5 C20"),
